@@ -18,6 +18,7 @@ import (
 	"regexp"
 	"strings"
 	"sync"
+	"time"
 
 	"go.dedis.ch/kyber/v4"
 	"go.dedis.ch/kyber/v4/share"
@@ -277,7 +278,8 @@ func scenarios() []scenario {
 			out = append(out, scalarScenario(g))
 		}
 	}
-	return append(out, schemeScenarios()...)
+	out = append(out, schemeScenarios()...)
+	return append(out, moreScenarios()...)
 }
 
 var raceRe = regexp.MustCompile(`(?s)WARNING: DATA RACE.*?==================`)
@@ -342,6 +344,15 @@ func RunRace(c *vf.Check) []func() {
 		sc := sc
 		jobs = append(jobs, func() {
 			pk := "C20/race/" + sc.name
+			if os.Getenv("VERIF_DEBUG_TIMING") != "" {
+				t0 := time.Now()
+				defer func() {
+					if fh, err := os.OpenFile(os.Getenv("VERIF_DEBUG_TIMING"), os.O_APPEND|os.O_CREATE|os.O_WRONLY, 0o644); err == nil {
+						fmt.Fprintf(fh, "TIMING %6.1fs %s\n", time.Since(t0).Seconds(), sc.name)
+						fh.Close()
+					}
+				}()
+			}
 			var ms []method
 			okb := false
 			c.Case(sc.name+": build", pk, func(x *vf.Ctx) { ms = sc.build(); okb = true })
